@@ -13,17 +13,23 @@ import (
 	"context"
 	"errors"
 	"fmt"
+	"reflect"
 	"runtime"
 	"sort"
 	"strconv"
 	"strings"
 	"sync"
+	"sync/atomic"
 	"testing"
 	"time"
+	"unsafe"
+
+	"github.com/panjf2000/ants/v2"
 
 	"verifharness/cw"
 	"verifharness/vh"
 
+	"github.com/projecteru2/core/cluster/calcium"
 	"github.com/projecteru2/core/lock"
 	"github.com/projecteru2/core/log"
 	"github.com/projecteru2/core/store"
@@ -42,14 +48,24 @@ type recorder struct {
 	mu      sync.Mutex
 	evs     []levt
 	failKey string
+	// called (once) when a node-operation lock is acquired
+	onNodeOp func()
 }
 
 func (r *recorder) add(kind, key string) {
 	g := goid()
 	r.mu.Lock()
 	r.evs = append(r.evs, levt{Gid: g, Kind: kind, Key: key})
+	var hook func()
+	if kind == "Acq" && strings.HasPrefix(key, "cnode_op_") && r.onNodeOp != nil {
+		hook, r.onNodeOp = r.onNodeOp, nil
+	}
 	r.mu.Unlock()
+	if hook != nil {
+		hook()
+	}
 }
+func (r *recorder) setOnNodeOp(f func()) { r.mu.Lock(); r.onNodeOp = f; r.mu.Unlock() }
 func (r *recorder) reset(failKey string) {
 	r.mu.Lock()
 	r.evs = nil
@@ -367,6 +383,12 @@ func randIDs(rng func(int) int, ids []string, repeats, missing bool) []string {
 	return out
 }
 
+// the remap pool of a Calcium (unexported field; read through reflection: test-only, nothing in /repo changes)
+func calciumPool(c *calcium.Calcium) *ants.PoolWithFunc {
+	f := reflect.ValueOf(c).Elem().FieldByName("pool")
+	return reflect.NewAt(f.Type(), unsafe.Pointer(f.UnsafeAddr())).Elem().Interface().(*ants.PoolWithFunc)
+}
+
 // one operation: run it, gather oracles and observations, emit the case
 func (x *world) run(t *testing.T, r *vh.Run, kind string, failKey string, tagsExtra map[string]any,
 	do func() (opTerm string, ids []string, desc map[string]any)) {
@@ -604,7 +626,7 @@ func runWorld(t *testing.T, r *vh.Run, x *world, worldNo int, budget int) int {
 	// ---- random operations ---------------------------------------------------
 	kinds := []string{"create", "create", "capacity", "remove-pod", "remove", "dissociate", "realloc", "replace",
 		"control", "send", "raw-engine", "set-node", "remove-node", "node-resource", "pod-resource", "remap",
-		"helper-nodes", "helper-workloads"}
+		"helper-nodes", "helper-workloads", "remove-saturated"}
 	perWorld := 36
 	for step := 0; step < perWorld && count < budget; step++ {
 		kind := kinds[(step+worldNo)%len(kinds)]
@@ -913,6 +935,57 @@ func runWorld(t *testing.T, r *vh.Run, x *world, worldNo int, budget int) int {
 					drain(ch)
 				}
 				return fmt.Sprintf("(OPodResource %s)", vh.Str(pod)), nil, map[string]any{"pod": pod, "err": fmt.Sprint(err)}
+			})
+			count++
+		case "remove-saturated":
+			// the remap pool (non-blocking ants pool) refuses the remap task of a remove: the remove must not
+			// run the remap itself while it holds the pod lock.  The pool is shrunk to one worker and that
+			// worker is kept busy; afterwards the refused remap is run the way the pool would have run it
+			// (its own goroutine), so that the model's remove (main thread + one remap thread) is what happens
+			if len(ids) == 0 {
+				continue
+			}
+			id := pick(rng, ids)
+			x.run(t, r, kind, "", map[string]any{"corpus": "saturated-remap-pool"}, func() (string, []string, map[string]any) {
+				pool := calciumPool(c)
+				pool.Tune(1)
+				// occupy the one worker and every idle worker the pool still caches, until it refuses a task
+				release := make(chan struct{})
+				var perr error
+				blockers := 0
+				for ; blockers < 4000; blockers++ {
+					started := make(chan struct{})
+					if perr = pool.Invoke(func() { close(started); <-release }); perr != nil {
+						break
+					}
+					<-started
+				}
+				// room for exactly the two tasks RemoveWorkload itself runs on the pool (the outer one and the one
+				// per node); the third task - the remap - finds the pool full
+				pool.Tune(pool.Running() + 2)
+				// should a remap run nevertheless while the remove is in flight (i.e. inside the remove), give the pool
+				// its size back at that moment: the remap's own pool task would otherwise never run
+				var inline int32
+				x.rec.setOnNodeOp(func() { atomic.StoreInt32(&inline, 1); pool.Tune(2000) })
+				ch, err := c.RemoveWorkload(ctx, []string{id}, true)
+				if err == nil {
+					drain(ch)
+				}
+				x.rec.setOnNodeOp(nil)
+				close(release)
+				pool.Tune(2000)
+				remaps := 0
+				if err == nil && atomic.LoadInt32(&inline) == 0 {
+					n := nodeOf[id]
+					doneR := make(chan struct{})
+					go func() {
+						defer close(doneR)
+						c.RemapResourceAndLog(ctx, log.WithFunc("verif.c20"), &types.Node{NodeMeta: types.NodeMeta{Name: n}})
+					}()
+					<-doneR
+					remaps = 1
+				}
+				return "(ORemove @ORDER@)", []string{id}, map[string]any{"ids": []string{id}, "err": fmt.Sprint(err), "pool_saturated": perr != nil, "blockers": blockers, "remap_ran_inside_remove": atomic.LoadInt32(&inline) == 1, "remaps": remaps}
 			})
 			count++
 		case "remap":
